@@ -9,8 +9,8 @@ C02.d  [flow] the state entered/re-entered is the destination of the last transi
        accepted transition is a whole copy of the pending one of the same round, taken only on the not-cancelled edge; if
        nothing survived no lifecycle callback runs and the active state is unchanged.
 C02.e  [flow] registry.requested is invalid at every return.
-C02.f  [cmp] applyRequest may drop a request without consulting guards only if the accepted transition already has the
-       same destination.
+C02.f  [cmp] in the substitution loops a request is dropped without consulting guards only if it is identical to the
+       accepted transition (origin, destination, method, payload presence, payload bytes).
 """
 import itertools
 
@@ -84,7 +84,7 @@ def requested_writers(run, F, E):
                 if not c.in_loop(n):
                     continue
                 a = n.e['args'][1]
-                ok = E.lv(a, fn) == {('core', 'request', 'destination')}
+                ok = E.lv(a, fn) in ({('core', 'request', 'destination')}, {('core', 'request')})
                 run.ob('C02.b', 'R_::%s applies the outstanding request\'s destination' % name, ok, where=n.e.get('l'), detail=ir.pp(a),
                        key='R_::%s applies something other than the outstanding request' % name)
 
@@ -103,43 +103,65 @@ def immediate(run, F, E):
 
 
 def drop_condition(run, F):
-    """applyRequest(current, d) returns false (request dropped unseen by guards) only if current.destination == d"""
-    for fn in F.find('R_', 'applyRequest'):
-        # which Transition type?
-        cur_ty = fn.params[0]['ty'].replace('const ', '').rstrip('&').strip()
-        has_payload = 'TransitionT<void>' not in cur_ty
-        reps = [0, 7, 200, 255]
-        bad = None
-        cells = 0
-        ev0 = Evaluator(F)
-        for origin, dest, method, pset, d in itertools.product([255, 3], reps, [0, 2], [0, 1] if has_payload else [0], reps):
-            ev = Evaluator(F)
-            cur = Obj(origin=origin, destination=dest, method=method)
-            if has_payload:
-                cur['payloadSet'] = pset
-                cur['storage'] = 0
-            this = Obj(_core=Obj(registry=Obj(requested=255, active=0)))
-            try:
-                res = None
-                # the predicate part: currentTransition != Transition{destination}
-                body_if = [s for s in ir.walk_stmts(fn.body) if s.get('s') == 'if']
-                if len(body_if) != 1:
-                    raise AnalysisBroken('unrecognised shape of applyRequest')
-                env = {fn.params[0]['id']: cur, fn.params[1]['id']: Evaluator.In(d, 'd')}
-                res = ev.truth(ev.ev(body_if[0]['c'], fn, this, env, 0))
-            except cmpdomain.NotPure as e:
-                raise AnalysisBroken('applyRequest condition is not a pure predicate: %s' % e)
-            cells += 1
-            applied = bool(res)
-            if not applied and dest != d and bad is None:
-                bad = {'current': dict(cur), 'requested': d}
-        run.ob('C02.f', 'applyRequest drops a request only when the accepted transition already leads to the same destination (%d cells, %s)' % (
-            cells, 'payload' if has_payload else 'void'), bad is None, where=fn.pat, detail=bad,
-            key='applyRequest can drop a request to a different destination')
-        # the true branch writes requested := destination and returns true
-        rets = [ir.const_val(s['e']) for s in ir.walk_stmts(fn.body) if s.get('s') == 'ret']
-        run.ob('C02.f', 'applyRequest returns whether it applied', sorted(r for r in rets if r is not None) == [0, 1], where=fn.pat,
-               key='applyRequest return values are not {true,false}')
+    """In the substitution loops a request may be dropped without being shown to any guard only if it is identical to the
+    transition accepted so far (origin, destination, method, payload presence, payload bytes). Decided by evaluating the loop's
+    own drop predicate -- the `if (applyRequest(...))` condition -- on the comparison domain of (accepted, outstanding)."""
+    for name in ('processTransitions', 'initialEnter'):
+        for fn in F.find('R_', name):
+            conds = []
+            for s in ir.walk_stmts(fn.body):
+                if s.get('s') == 'for':
+                    for t in ir.walk_stmts(s.get('body')):
+                        if t.get('s') == 'if' and 'applyRequest' in ir.pp(t['c']):
+                            conds.append(t['c'])
+            if len(conds) != 1:
+                raise AnalysisBroken('R_::%s: expected one `if (applyRequest(...))` in the loop, found %d' % (name, len(conds)))
+            cur_param = None
+            cur_decl = None
+            for p in fn.params:
+                if p['n'] == 'currentTransition':
+                    cur_param = p
+            if cur_param is None:
+                for s in ir.walk_stmts(fn.body):
+                    if s.get('s') == 'decl':
+                        for v in s['vars']:
+                            if v['n'] == 'currentTransition':
+                                cur_decl = v
+            cur_id = (cur_param or cur_decl or {}).get('id')
+            if cur_id is None:
+                raise AnalysisBroken('R_::%s: currentTransition not found' % name)
+            ty = (cur_param or cur_decl)['ty']
+            has_payload = 'TransitionT<void>' not in ty
+            origins, dests, methods = [255, 3], [0, 7, 255], [0, 2]
+            psets = [0, 1] if has_payload else [0]
+            stores = [0, 5] if has_payload else [0]
+            bad = None
+            cells = 0
+            for co, cd, cm, cp, cs, ro, rd, rp, rs in itertools.product(origins, dests, methods, psets, stores, origins, dests[:2] + [254], psets, stores):
+                if not cp and cs:
+                    continue
+                if not rp and rs:
+                    continue
+                cur = Obj(origin=co, destination=cd, method=cm)
+                req = Obj(origin=ro, destination=rd, method=0)
+                if has_payload:
+                    cur['payloadSet'], cur['storage'] = cp, cs
+                    req['payloadSet'], req['storage'] = rp, rs
+                this = Obj(_core=Obj(request=req, registry=Obj(requested=255, active=0)))
+                ev = Evaluator(F)
+                try:
+                    applied = ev.truth(ev.ev(conds[0], fn, this, {cur_id: cur}, 0))
+                except cmpdomain.NotPure as e:
+                    raise AnalysisBroken('R_::%s: the drop predicate is not a pure comparison: %s' % (name, e))
+                cells += 1
+                identical = co == ro and cd == rd and cm == 0 and cp == rp and (not cp or cs == rs)
+                if not applied and not identical and bad is None:
+                    bad = {'accepted': dict(cur), 'outstanding request': dict(req), 'dropped unseen by guards': True}
+                if applied and this['_core']['registry']['requested'] != rd and bad is None:
+                    bad = {'accepted': dict(cur), 'outstanding request': dict(req), 'registry.requested after applying': this['_core']['registry']['requested']}
+            run.ob('C02.f', 'R_::%s drops an outstanding request unseen by guards only if it is identical to the accepted transition; otherwise it becomes the '
+                   'requested destination (%d cells, %s)' % (name, cells, 'payload' if has_payload else 'void'), bad is None, where=fn.pat, detail=bad,
+                   key='R_::%s can drop a request that differs from the accepted transition' % name)
 
 
 def run(run):
